@@ -77,7 +77,7 @@ def np_zeros(interp, name, args, kw, st, node):
     term = T(base, *shape_terms(dims)) if dims is not None else T(base, b["shape"].term)
     if tag:
         term = T("astype", term, tag)
-    return fresh_arr(term, dims, _L(b["shape"]), tag)
+    return fresh_arr(term, dims, frozenset(), tag)
 
 
 @reg("numpy.full")
@@ -87,7 +87,7 @@ def np_full(interp, name, args, kw, st, node):
     fill = b["fill_value"]
     tag = _dtype_tag(b.get("dtype"), fill)
     term = T("full", fill.term, *shape_terms(dims)) if dims is not None else T("full", fill.term, b["shape"].term)
-    return fresh_arr(term, dims, _L(b["shape"], fill), tag)
+    return fresh_arr(term, dims, _L(fill), tag)
 
 
 @reg("numpy.eye", "numpy.identity")
